@@ -41,7 +41,8 @@ def convDecl (c : Ctx) (np : List Str) (isOneof : Bool) (virt : List Property) :
       errs := vr.eff.errs + pr.eff.errs + ne.errs,
       panic := vr.eff.panic || pr.eff.panic || ne.panic
                 -- `ww.field.name` with `ww.field == nil`
-                || (isOneof && name = []) }
+                || (isOneof && name = []),
+      uses := (msgEff psm).uses ++ vr.eff.uses ++ pr.eff.uses ++ ne.uses }
 
 /-- `RangeNestedSchemas` -/
 def convNested (c : Ctx) (np : List Str) : List Nested → Eff
@@ -69,19 +70,21 @@ structure Step where
   svcs : List SvcSkel := []
   hard : Bool := false
 
-/-- `:name` → `{snake_name}` on every path part (visitServiceMethodNode); the second component
-counts parts whose field is missing from the request -/
+/-- `:name` → `{snake_name}` for one path part (visitServiceMethodNode) -/
+def rewritePart (part : Str) : Str :=
+  match part with
+  | 58 :: nm => b!"{" ++ toSnake nm ++ b!"}"
+  | _ => part
+
+/-- the path of the HTTP rule: every part rewritten; the second component counts the `:name`
+parts whose field is missing from the request (one `addError` each) -/
 def rewritePath (reqProps : List Property) (resolved : Str) : Str × Nat :=
   let parts := splitOnByte 47 resolved
-  let out := parts.map fun part =>
-    match part with
-    | 58 :: nm => b!"{" ++ toSnake nm ++ b!"}"
-    | _ => part
   let missing := (parts.filter fun part =>
     match part with
     | 58 :: nm => !(reqProps.any (·.name = nm))
     | _ => false).length
-  (joinWith b!"/" out, missing)
+  (joinWith b!"/" (parts.map rewritePart), missing)
 
 def verbBody : Verb → Str
   | .get => []
@@ -110,6 +113,7 @@ def walkMethod (c : Ctx) (basePath : Option Str) (m : Method) : MethodWalk :=
 def convMethod (node : Method × Str × Str × Str) : Eff × Option MethodSkel :=
   let (m, input, output, resolved) := node
   let e0 := Eff.imp googleApiAnnotationsImport
+  let eOpt := Eff.use googleApiAnnotationsImport ++ when (m.mopt ≠ .none) (Eff.use j5ExtImport)
   match m.request with
   | none => (e0 ++ Eff.err, none)
   | some req =>
@@ -117,7 +121,7 @@ def convMethod (node : Method × Str × Str × Str) : Eff × Option MethodSkel :
     let (path, missing) := rewritePath req resolved
     let eMissing : Eff := { errs := missing }
     if m.verb = .unspecified then (e0 ++ e1 ++ eMissing ++ Eff.err, none) else
-    (e0 ++ e1 ++ eMissing,
+    (e0 ++ e1 ++ eMissing ++ eOpt,
       some { name := m.name, input := input, output := output,
              http := some { verb := m.verb, path := path, body := verbBody m.verb },
              mopt := m.mopt })
@@ -136,7 +140,8 @@ def convService (c : Ctx) (s : Service) : Step :=
   | some name =>
     let built := walks.filterMap (·.node) |>.map convMethod
     let effBuild := built.foldl (fun e b => e ++ b.1) ({} : Eff)
-    { target := .service, eff := effWalk ++ effBuild,
+    { target := .service,
+      eff := effWalk ++ effBuild ++ when (s.sopt ≠ .none) (Eff.use j5ExtImport),
       svcs := [{ name := name ++ b!"Service", sopt := soptSkel s.sopt,
                  methods := built.filterMap (·.2) }] }
 
@@ -174,7 +179,8 @@ def acceptTopic (c : Ctx) (t : TopicNode) : List Step :=
         mopt := .none }
   msgSteps ++
     [{ target := .topic,
-       eff := Eff.imp messagingAnnotationsImport ++ Eff.imp googleProtoEmptyImport,
+       eff := Eff.use messagingAnnotationsImport ++ Eff.imp messagingAnnotationsImport
+                ++ Eff.imp googleProtoEmptyImport,
        svcs := [{ name := toCamel t.name ++ b!"Topic",
                   sopt := .topic t.topicName t.role t.entityName, methods := methods }] }]
 
